@@ -37,18 +37,20 @@ def main():
                         data = bytes([0x41 + (i + j) % 20]) * 32
                         mixed.append(Kevent(1000 + 10 * i + j, data, struct.unpack('<QQQQ', data), 7, fcode | q, fcode, q))
             evs = mixed
+        window = [[e.eventid, e.func_qualifier, list(e.values)] for e in evs]
+        window = [[e.eventid, e.func_qualifier, list(e.values)] for e in evs]
         try:
             t = parser.parse_event_list(evs)
             if [id(x) for x in t.ktraces] != [id(x) for x in evs]:
                 out.append({'err': 'TraceDoesNotHoldItsWindow', 'ktraces': [x.timestamp for x in t.ktraces]})
                 continue
             if case['kind'] == 0:
-                out.append({'a': t.vnode_id, 'b': 0, 'text': t.path.encode('utf-8', 'surrogateescape').hex()})
+                out.append({'window': window, 'lookup_code': by_name['VFS_LOOKUP'], 'a': t.vnode_id, 'b': 0, 'text': t.path.encode('utf-8', 'surrogateescape').hex()})
             elif case['kind'] == 1:
-                out.append({'a': t.debugid, 'b': t.str_id, 'text': t.vstr.encode('utf-8', 'surrogateescape').hex(),
+                out.append({'window': window, 'lookup_code': by_name['VFS_LOOKUP'], 'a': t.debugid, 'b': t.str_id, 'text': t.vstr.encode('utf-8', 'surrogateescape').hex(),
                             'gstr': sorted([k, v] for k, v in parser.global_strings.items())})
             else:
-                out.append({'a': 0, 'b': 0, 'text': t.name.encode('utf-8', 'surrogateescape').hex(),
+                out.append({'window': window, 'lookup_code': by_name['VFS_LOOKUP'], 'a': 0, 'b': 0, 'text': t.name.encode('utf-8', 'surrogateescape').hex(),
                             'tids_names': sorted([k, v] for k, v in parser.tids_names.items())})
         except Exception as ex:
             out.append({'err': type(ex).__name__})
